@@ -1938,3 +1938,103 @@ Proof.
   - destruct I as [<-|[]]. left. reflexivity.
   - exact I.
 Qed.
+
+(* ------------------------------------------------------------------------- *)
+(* 10. every flag combination: the handler fires only in the session of the device named *)
+
+Definition handled_own (e : eff) : Prop := match e with EHandle s p _ => s = p | _ => True end.
+
+Lemma eff_ok_handled_own N T e : eff_ok N T e -> handled_own e.
+Proof. destruct e; cbn; intuition. Qed.
+
+Lemma x_hand_own h d pid job : s_id h = d -> Forall handled_own (x_hand h d pid job).
+Proof. intros E. unfold x_hand. destruct (pid <? MvRefresh); [constructor|]. apply Forall_one. exact E. Qed.
+
+Lemma recv_plain_own h v : Forall handled_own (recv_plain h v).1.
+Proof.
+  destruct v as [[d pid] job]. unfold recv_plain. destruct (id_empty d); [constructor|].
+  destruct (id_eqb (s_id h) d) eqn:E; cbn [negb]; [|constructor].
+  apply x_hand_own. apply id_eqb_eq. exact E.
+Qed.
+
+Lemma recv_subs_own h subs : Forall handled_own (recv_subs h subs).1.
+Proof.
+  induction subs as [|v r IH]; cbn [recv_subs]; [constructor|].
+  destruct (id_empty v.1.1); [constructor|].
+  pose proof (recv_plain_own h v) as P. destruct (recv_plain h v) as [e [err|]]; [exact P|].
+  destruct (recv_subs h r) as [e' r']. cbn in *. apply Forall_app. auto.
+Qed.
+
+Lemma pm_subs_own t h subs : Forall handled_own (pm_subs t h subs).1.
+Proof.
+  induction subs as [|v r IH]; cbn [pm_subs]; [constructor|].
+  destruct (id_empty v.1.1); [constructor|].
+  destruct (id_eqb (s_id h) v.1.1).
+  - pose proof (recv_plain_own h v) as P. destruct (recv_plain h v) as [e x].
+    destruct (pm_subs t h r) as [e' r']. cbn in *. apply Forall_app. auto.
+  - destruct (lookup true t v.1.1) as [|s|s]; try exact IH.
+    pose proof (recv_plain_own s v) as P. destruct (recv_plain s v) as [e [err|]]; [exact P|].
+    destruct (pm_subs t h r) as [e' r']. cbn in *. apply Forall_app. auto.
+Qed.
+
+(* receive makes the device check itself unless FlagMultiDevice is set ... *)
+Lemma recv_x_own h n : xp_mdev n = false -> Forall handled_own (recv_x h n).1.
+Proof.
+  intros M. unfold recv_x. rewrite M. cbn [negb andb].
+  destruct (id_empty (xp_dev n)); [constructor|].
+  destruct (id_eqb (s_id h) (xp_dev n)) eqn:E; cbn [negb]; [|constructor].
+  apply id_eqb_eq in E.
+  destruct (xp_multi n).
+  - destruct (xp_cnt n =? 0); [constructor|]. destruct (xp_body n); try constructor. apply recv_subs_own.
+  - destruct (xp_frag n).
+    + destruct (xp_cnt n =? 0); [constructor|]. destruct (xp_cnt n =? 1); [|constructor]. apply x_hand_own. exact E.
+    + apply x_hand_own. exact E.
+Qed.
+
+(* ... and conn.process sends every packet with FlagMultiDevice (with or without FlagMulti) through
+   processMultiple, which hands each entry to the session of the device the entry names *)
+Lemma process_x_own t h n : Forall handled_own (process_x t h n).1.
+Proof.
+  unfold process_x. destruct (xp_mdev n) eqn:M; [|apply recv_x_own; exact M].
+  destruct (xp_cnt n =? 0); [constructor|]. destruct (xp_body n); try constructor. apply pm_subs_own.
+Qed.
+
+Lemma xstep_own w o w' e r :
+  xstep w o = (w', e, r) -> wf (xw_tbl w) -> wf (xw_tbl w') /\ Forall handled_own e.
+Proof.
+  intros H W. destruct o as [d j|d|d n|n]; cbn [xstep] in H.
+  - destruct (x_is_open w d). { injection H as <- <- <-. split; [exact W|constructor]. }
+    destruct (talk 0 (xw_tbl w) (Single (Leaf d SvHello j BHello) [])) as [[t' e'] r'] eqn:T. injection H as <- <- <-.
+    apply talk_spec in T as (W' & _ & F & _); [|exact W]. split; [exact W'|].
+    refine (List.Forall_impl _ _ F). intros x. apply eff_ok_handled_own.
+  - destruct (server_session (xw_tbl w) d); [|injection H as <- <- <-; split; [exact W|constructor]].
+    destruct (x_is_open w d); injection H as <- <- <-; split; try exact W; constructor.
+  - destruct (server_session (xw_tbl w) d) as [h|]; [|injection H as <- <- <-; split; [exact W|constructor]].
+    destruct (x_is_open w d); [|injection H as <- <- <-; split; [exact W|constructor]].
+    pose proof (process_x_own (xw_tbl w) h n) as P. destruct (process_x (xw_tbl w) h n) as [e' [err|]];
+      injection H as <- <- <-; split; try exact W; exact P.
+  - destruct (id_empty (xp_dev n)). { injection H as <- <- <-. split; [exact W|constructor]. }
+    destruct (x_is_open w (xp_dev n)). { injection H as <- <- <-. split; [exact W|constructor]. }
+    destruct (lookup true (xw_tbl w) (xp_dev n)) as [|h|h]; try (injection H as <- <- <-; split; [exact W|constructor]).
+    pose proof (process_x_own (xw_tbl w) h n) as P. destruct (process_x (xw_tbl w) h n) as [e' [err|]];
+      injection H as <- <- <-; split; try exact W; exact P.
+Qed.
+
+Lemma xrun_own ops : forall w w' es,
+  xrun w ops = (w', es) -> wf (xw_tbl w) -> wf (xw_tbl w') /\ Forall (Forall handled_own) es.
+Proof.
+  induction ops as [|o ops IH]; intros w w' es H W; cbn [xrun] in H.
+  - injection H as <- <-. split; [exact W|constructor].
+  - destruct (xstep w o) as [[w1 e1] r1] eqn:S. destruct (xrun w1 ops) as [w2 l] eqn:R. injection H as <- <-.
+    apply xstep_own in S as (W1 & F1); [|exact W]. apply IH in R as (W2 & F2); [|exact W1].
+    split; [exact W2|]. constructor; assumption.
+Qed.
+
+(* the packet of the seeded change: on H's Channel, FlagMultiDevice alone, naming X: nothing is handled
+   and the Channel ends; with both flags and a well-formed entry of X it is handled in X's session *)
+Lemma flag_demo :
+  let ops := [XReg idA 1; XReg idC 2; XOpen idA;
+              XChan idA (XP idC 192 7 false true false false 0 XPlain); XOpen idA;
+              XChan idA (XP idC 192 8 true true false false 1 (XCont [(idC, 193, 9)]))] in
+  map (flat_map ev_of) (xrun (XW ∅ []) ops).2 = [[VNew idA]; [VNew idC]; []; []; []; [VRecv idC idC 9]].
+Proof. vm_compute. reflexivity. Qed.
